@@ -340,6 +340,9 @@ func (b *BaseType) UnmarshalJSON(data []byte) error {
 	if err != nil {
 		return err
 	}
+	if !isAtomicType(bt.Type) {
+		return fmt.Errorf("non atomic type %s in <base-type>", bt.Type)
+	}
 	if bt.Enum != nil {
 		var raw map[string]interface{}
 		if err := unmarshalExact(data, &raw); err != nil {
